@@ -46,11 +46,17 @@ def _pos_class(world, fault):
 
 
 def _row_type(world, fault):
+    """Transaction type of the faulted row, plus the exchange-supplied optional values it carries (checks that compare computed and
+    supplied values take other paths when those are present)."""
     if "row" not in fault or "table" not in fault or "sheet" not in fault:
         return "-"
     try:
         t = faults._find_table(faults._find_sheet(world, fault["sheet"]), fault["table"])  # pylint: disable=protected-access
-        return t["rows"][fault["row"]].get("transaction_type", "-")
+        r = t["rows"][fault["row"]]
+        supplied = [f for f in ("fiat_in_no_fee", "fiat_in_with_fee", "fiat_out_no_fee", "crypto_out_with_fee") if r.get(f) is not None]
+        if t["type"] == "OUT" and r.get("fiat_fee") is not None:
+            supplied.append("fiat_fee")
+        return r.get("transaction_type", "-") + "".join("+" + f for f in supplied)
     except (KeyError, IndexError):
         return "-"
 
@@ -156,7 +162,8 @@ def _fault_applicable(world, f):
 
 def _files_for(w, opts, config_text, ods, readonly=False):
     sub = opts.get("files_in", "")
-    files = {"config": sub + "w0.ini", "input": sub + "w0.ods"}
+    names = opts.get("file_names") or ["w0.ini", "w0.ods"]
+    files = {"config": sub + names[0], "input": sub + names[1]}
     cf = opts.get("cmd_fault")
     if cf == "input_not_ods":
         files["input"] = sub + "w0.txt"
